@@ -279,13 +279,13 @@ Definition app_execute_gen (legacy : bool) (cfg : config) (fs : fsys) (r : reque
   (* fix d801876: only origin-form targets reach the controllers *)
   if negb (starts_with (uri r) [47]) then SOk (mkResp 400 (reason 400) (rs_headers rs0) [text_range MSG_TARGET]) else
   if beqs (uri r) [47] then SOk (asset_controller fs INDEX_HTML (as_index a) Mt_TEXT_HTML 200 rs0) else
-  if (legacy || beqs (method r) GET) && beqs (uri r) (47 :: NAME_STYLE) then SOk (asset_controller fs NAME_STYLE (as_style a) Mt_TEXT_CSS 200 rs0) else
-  if (legacy || beqs (method r) GET) && beqs (uri r) (47 :: NAME_SCRIPT) then SOk (asset_controller fs NAME_SCRIPT (as_script a) Mt_TEXT_JAVASCRIPT 200 rs0) else
+  if (legacy || is_ghO (method r)) && beqs (uri r) (47 :: NAME_STYLE) then SOk (asset_controller fs NAME_STYLE (as_style a) Mt_TEXT_CSS 200 rs0) else
+  if (legacy || is_ghO (method r)) && beqs (uri r) (47 :: NAME_SCRIPT) then SOk (asset_controller fs NAME_SCRIPT (as_script a) Mt_TEXT_JAVASCRIPT 200 rs0) else
   match upload_controller cfg r rs0 with FPanicPort => SPanic SPortUnwrap | FPanic _ => SPanic SUrlUnwrap | FResp x => SOk x | FNoMatch =>
   match urlenc_controller r rs0 with FPanicPort => SPanic SPortUnwrap | FPanic _ => SPanic SUrlUnwrap | FResp x => SOk x | FNoMatch =>
   match formget_controller r rs0 with FPanicPort => SPanic SPortUnwrap | FPanic _ => SPanic SUrlUnwrap | FResp x => SOk x | FNoMatch =>
   match multipart_controller r rs0 with FPanicPort => SPanic SPortUnwrap | FPanic _ => SPanic SUrlUnwrap | FResp x => SOk x | FNoMatch =>
-  if beqs (method r) GET && beqs (uri r) (47 :: NAME_FAVICON) then SOk (asset_controller fs NAME_FAVICON (as_favicon a) Mt_IMAGE_SVG 200 rs0) else
+  if is_ghO (method r) && beqs (uri r) (47 :: NAME_FAVICON) then SOk (asset_controller fs NAME_FAVICON (as_favicon a) Mt_IMAGE_SVG 200 rs0) else
   if legacy then
     (if is_matching_legacy fs r then static_process_legacy fs r rs0
      else SOk (asset_controller fs NAME_404 (as_404 a) Mt_TEXT_HTML 404 rs0))
